@@ -206,6 +206,12 @@ func carryTemplate(c *core.Ctx, r *core.Report, fn *ssa.Function, k cell, what s
 		return an.Interval{}
 	})
 	ok := true
+	type zeroReturn struct {
+		ret   *ssa.Return
+		zeros []ssa.Value
+		count an.Interval
+	}
+	var zeroReturns []zeroReturn
 	for _, e := range exits {
 		if _, isRet := e.Instr.(*ssa.Return); !isRet {
 			continue
@@ -216,6 +222,30 @@ func carryTemplate(c *core.Ctx, r *core.Report, fn *ssa.Function, k cell, what s
 			if call, isCall := noConv(ret.Results[0]).(*ssa.Call); isCall && an.Callee(call) == nil && !call.Call.IsInvoke() {
 				if _, isSig := call.Call.Value.Type().Underlying().(*types.Signature); isSig {
 					r.OK(key+"#pass-through", an.Pos(c, ret), "this return hands on the wrapped value unchanged; the carried %s is left as it is", what)
+					continue
+				}
+			}
+		}
+		if ret := e.Instr.(*ssa.Return); e.Count.Lo == 0 && e.Count.Hi == 0 && len(ret.Results) == 1 {
+			// nothing is due on this tick: the function returns the constant 0 under a test that a factor of this tick's
+			// rate is zero, and leaves what is carried as it is (decided once the rate terms are known, below)
+			if k, isK := noConv(ret.Results[0]).(*ssa.Const); isK && k.Value != nil && k.Int64() == 0 {
+				var zeros []ssa.Value
+				for _, g := range an.GuardsOf(ret.Block()) {
+					bo, isBin := an.Strip(g.Cond).(*ssa.BinOp)
+					if !isBin {
+						continue
+					}
+					kz, isZ := bo.Y.(*ssa.Const)
+					if !isZ || kz.Value == nil || constant.Sign(kz.Value) != 0 {
+						continue
+					}
+					if (bo.Op == token.EQL && g.Polarity) || (bo.Op == token.NEQ && !g.Polarity) {
+						zeros = append(zeros, bo.X)
+					}
+				}
+				if len(zeros) > 0 {
+					zeroReturns = append(zeroReturns, zeroReturn{ret, zeros, e.Count})
 					continue
 				}
 			}
@@ -311,6 +341,60 @@ func carryTemplate(c *core.Ctx, r *core.Report, fn *ssa.Function, k cell, what s
 		if nRet == 0 {
 			ok = false
 			r.Violation(key+"#emitted", an.Pos(c, st), "no return follows the carry update")
+		}
+	}
+	// early `return 0` paths that leave the carry alone: the value tested zero is a factor of the rate term of every
+	// carry update (so this tick's rate is zero and nothing is withheld)
+	for _, zr := range zeroReturns {
+		good := len(stores) > 0
+		for _, st := range stores {
+			term, have := carryTerms[st]
+			if !have {
+				good = false
+				break
+			}
+			factors := map[ssa.Value]bool{}
+			var walk func(v ssa.Value, d int)
+			walk = func(v ssa.Value, d int) {
+				v = noConv(v)
+				if d > 12 || factors[v] {
+					return
+				}
+				factors[v] = true
+				switch x := v.(type) {
+				case *ssa.BinOp:
+					if x.Op == token.MUL {
+						walk(x.X, d+1)
+						walk(x.Y, d+1)
+					} else if x.Op == token.QUO {
+						walk(x.X, d+1)
+					}
+				case *ssa.Convert:
+					walk(x.X, d+1)
+				case *ssa.ChangeType:
+					walk(x.X, d+1)
+				case *ssa.Phi:
+					for _, e := range x.Edges {
+						walk(e, d+1)
+					}
+				}
+			}
+			walk(term.V, 0)
+			hit := false
+			for _, z := range zr.zeros {
+				if factors[noConv(z)] || factors[z] {
+					hit = true
+				}
+			}
+			if !hit {
+				good = false
+			}
+		}
+		if good {
+			r.OK(key+"#nothing-due", an.Pos(c, zr.ret), "this return emits 0 under a test that a factor of the tick's rate is zero; the carried %s is left as it is", what)
+		} else {
+			ok = false
+			r.Violation(key+"#once", an.Pos(c, zr.ret), "on paths to this return the carried %s is stored %s times (expected exactly once): the difference between what was due and what was emitted on this tick is not carried to later ticks", what, zr.count)
 		}
 	}
 	if ok {
